@@ -83,6 +83,17 @@ type LeafSpec struct {
 	Serial    int   // > 0: this small serial number; 0: unique
 	NBOff     int64 // NotBefore = NotAfter + NBOff seconds (may be positive: inverted validity); 0: NotAfter - 3 months
 	Bulk      int   // > 0: a padding extension of that many octets (large request bodies)
+	// KUMode draws the leaf's keyUsage independently of basicConstraints: 0 by the CA flag
+	// (digitalSignature / keyCertSign+cRLSign), 1 digitalSignature+keyCertSign, 2 keyCertSign+cRLSign,
+	// 3 no keyUsage, 4 digitalSignature only, 5 cRLSign only
+	KUMode int
+}
+
+// HistStep is an earlier submission on the same Instance (HTTP level): the case's unperturbed
+// submission with these perturbations, sent to the same endpoint after advancing the log's clock.
+type HistStep struct {
+	Perturbs   []Perturb
+	AdvanceSec int
 }
 
 type Perturb struct {
@@ -92,6 +103,8 @@ type Perturb struct {
 
 type Opt struct {
 	Start, Limit    *int64 // seconds relative to the NotAfter of the original path[0]
+	StartNs         int64  // sub-second part added to Start (nanoseconds, either sign)
+	LimitNs         int64  // sub-second part added to Limit
 	RejectExpired   bool
 	RejectUnexpired bool
 	Now             int64 // nanoseconds relative to the same instant (direct level only)
@@ -111,6 +124,8 @@ type Case struct {
 	Perturbs    []Perturb
 	Opt         Opt
 	PreChain    bool // HTTP level: submit to add-pre-chain
+	History     []HistStep // HTTP level: submissions made before the judged one (each is judged too)
+	AdvanceSec  int        // HTTP level: log clock advance before the final submission
 	MaxDepth    int  // deepest intermediate level (0 = 3)
 }
 
@@ -270,6 +285,17 @@ var (
 	memoID = map[*pki.Cert]string{}
 )
 
+// memoTrim bounds the memo; called between cases only, so that within a case a certificate described
+// twice (history steps) is the same certificate byte for byte.
+func memoTrim() {
+	memoMu.Lock()
+	defer memoMu.Unlock()
+	if len(memo) > 20000 {
+		memo = map[string]*pki.Cert{}
+		memoID = map[*pki.Cert]string{}
+	}
+}
+
 func issueMemo(parent *pki.Cert, t pki.Template, label string) *pki.Cert {
 	signer := t.Key
 	pid := "self"
@@ -285,10 +311,6 @@ func issueMemo(parent *pki.Cert, t pki.Template, label string) *pki.Cert {
 	defer memoMu.Unlock()
 	if c, ok := memo[id]; ok {
 		return c
-	}
-	if len(memo) > 20000 {
-		memo = map[string]*pki.Cert{}
-		memoID = map[*pki.Cert]string{}
 	}
 	c := pki.Issue(parent, t, label)
 	memo[id] = c
@@ -562,9 +584,24 @@ func build(c *Case) *world {
 		}
 		var exts []pki.Ext
 		if ls.CA {
-			exts = append(exts, pki.BasicConstraints(true, -1, true), pki.KeyUsage(pki.KUKeyCertSign, pki.KUCRLSign))
-		} else {
+			exts = append(exts, pki.BasicConstraints(true, -1, true))
+		}
+		switch ls.KUMode {
+		case 1:
+			exts = append(exts, pki.KeyUsage(pki.KUDigitalSignature, pki.KUKeyCertSign))
+		case 2:
+			exts = append(exts, pki.KeyUsage(pki.KUKeyCertSign, pki.KUCRLSign))
+		case 3:
+		case 4:
 			exts = append(exts, pki.KeyUsage(pki.KUDigitalSignature))
+		case 5:
+			exts = append(exts, pki.KeyUsage(pki.KUCRLSign))
+		default:
+			if ls.CA {
+				exts = append(exts, pki.KeyUsage(pki.KUKeyCertSign, pki.KUCRLSign))
+			} else {
+				exts = append(exts, pki.KeyUsage(pki.KUDigitalSignature))
+			}
 		}
 		if ls.HasEKU {
 			var oids [][]int
@@ -816,6 +853,31 @@ func (w *world) perturb(p Perturb) string {
 		out[i] = elem{c: ch[i].c, der: append(append([]byte{}, ch[i].der...), make([]byte, 1+mod(p.J, 3))...), misaligned: true}
 		w.chain = out
 		return "trailing-bytes"
+	case "dropinter":
+		if n < 2 {
+			return "noop:dropinter"
+		}
+		i := 1 + mod(p.I, n-1)
+		w.chain = append(append([]elem{}, ch[:i]...), ch[i+1:]...)
+		return "drop-intermediate"
+	case "swapinters":
+		if n < 3 {
+			return "noop:swapinters"
+		}
+		i, j := 1+mod(p.I, n-1), 1+mod(p.J, n-1)
+		if i == j {
+			j = 1 + (i % (n - 1))
+		}
+		out := append([]elem{}, ch...)
+		out[i], out[j] = out[j], out[i]
+		w.chain = out
+		return "swap-intermediates"
+	case "leafalone":
+		if n < 2 {
+			return "noop:leafalone"
+		}
+		w.chain = append([]elem{}, ch[:1]...)
+		return "leaf-alone"
 	case "oldself":
 		// put the CA's own self-signed certificate in front of its (cross-)certificate: still a valid order
 		find := func(c *pki.Cert) *pki.Cert {
